@@ -201,7 +201,7 @@ def map_op(t, m, group, op, kx, ky, v, is_tree):
 
 
 NOPS = {('map', 'write'): 3, ('map', 'del'): 4, ('map', 'read'): 10, ('map', 'bulk'): 3,
-        ('set', 'write'): 3, ('set', 'del'): 3, ('set', 'read'): 6, ('set', 'inplace'): 4}
+        ('set', 'write'): 3, ('set', 'del'): 3, ('set', 'read'): 7, ('set', 'inplace'): 4}
 
 
 def set_op(t, m, group, op, kx, ky, one=False):
@@ -256,9 +256,12 @@ def set_op(t, m, group, op, kx, ky, one=False):
         elif op == 4:
             got, ge = same_keys(list(t), m.keys()), None
             want, we = True, None
-        else:
+        elif op == 5:
             got, ge = same_keys(list(t.keys()), m.keys()) and same_keys(list(iter(t)), m.keys()), None
             want, we = True, None
+        else:
+            got, ge = call(t.isdisjoint, [kx] if one else [kx, ky])
+            want, we = not (m.has(kx) or (not one and m.has(ky))), None
     else:  # inplace operators with a 2-element plain list operand
         # an operand with a duplicated key is C10's subject (known finding there:
         # ^= toggles once per occurrence); C01 drives ^= with distinct operand keys
